@@ -431,9 +431,10 @@ class PDFContentParser(PSStackParser[Union[PSKeyword, PDFStream]]):
                 d = {literal_name(k): resolve1(v) for (k, v) in choplist(2, objs)}
                 eos = b"EI"
                 filter = d.get("F", None)
-                if filter is not None:
-                    if isinstance(filter, PSLiteral):
-                        filter = [filter]
+                if isinstance(filter, PSLiteral):
+                    filter = [filter]
+                # anything but a name or a non-empty array names no filter
+                if isinstance(filter, list) and filter:
                     if filter[0] in LITERALS_ASCII85_DECODE:
                         eos = b"~>"
                 (pos, data) = self.get_inline_data(
